@@ -229,3 +229,43 @@ func opTableProbe(req request) response {
 	}
 	return response{"outcome": "ok", "action": acts, "goto": gotos}
 }
+
+func init() {
+	register("parse_many", opParseMany)
+}
+
+// opParseMany runs Parse (no callbacks) on many token-kind sequences and reports only the outcome:
+// [0] accepted, [1, i] syntax error with the position of token i (i = -1: zero position), [2] other error.
+func opParseMany(req request) response {
+	raw, _ := req["seqs"].([]any)
+	out := make([][]int, 0, len(raw))
+	for _, r := range raw {
+		kinds, _ := r.([]any)
+		fl := &fakeLexer{}
+		for i, k := range kinds {
+			ks, _ := k.(string)
+			fl.toks = append(fl.toks, lexer.Token{
+				Terminal: grammar.Terminal(ks),
+				Lexeme:   "t",
+				Pos:      lexer.Position{Filename: "f", Offset: i, Line: 1, Column: i + 1},
+			})
+		}
+		p := &ebnfparser.Parser{L: fl}
+		err := p.Parse(nil, nil)
+		if err == nil {
+			out = append(out, []int{0})
+			continue
+		}
+		var pe *algoparser.ParseError
+		if errors.As(err, &pe) && pe.Cause != nil && strings.Contains(pe.Cause.Error(), "no action exists") {
+			if pe.Pos.IsZero() {
+				out = append(out, []int{1, -1})
+			} else {
+				out = append(out, []int{1, pe.Pos.Offset})
+			}
+			continue
+		}
+		out = append(out, []int{2})
+	}
+	return response{"outcome": "ok", "results": out}
+}
